@@ -3,18 +3,10 @@
 //!   celharness check <Cxx> --tier quick|thorough --seed N --model <celmodel> --corpus <file>
 //!                    --known <known_findings.jsonl> --out <evidence-part.json> --replay-dir <dir>
 //!   celharness replay <file> --model <celmodel>
-mod anyser;
-mod ctx;
-mod gen;
-mod model;
-mod prng;
-mod props;
-mod run;
-mod sx;
-mod wire;
 
-use props::{PropDef, Tier};
-use run::Case;
+use celharness::props::{PropDef, Tier};
+use celharness::run::Case;
+use celharness::{ctx, model, prng, props, run, sx};
 use serde_json::{json, Value as J};
 use std::collections::{BTreeMap, HashSet};
 use std::time::Instant;
